@@ -19,7 +19,7 @@ import numpy as np
 from .. import core, tlc
 from .. import ttp as tp
 from ..core import Report, small
-from .c07 import rr4_feasible_set
+from .c07 import relabel_closure, rr4_feasible_set
 
 
 def _trace_cfg() -> str:
@@ -73,8 +73,19 @@ def run(prop: str, tier: str, seed: int) -> int:
         raise core.MachineryError("4-team instances differ in their settings")
     cset = {k: c0[k] for k in ("hmin", "hmax", "amin", "amax", "smin", "smax")}
     cases = []
-    if tier == "thorough":
-        F = sorted(rr4_feasible_set(rep, 2, cset))
+    # the symmetry argument used below, checked by TLC on the single round robin: the feasible set equals
+    # the closure under team renaming of the feasible plans with a fixed first day
+    c1 = {"hmin": 1, "hmax": 3, "amin": 1, "amax": 3, "smin": 0, "smax": 3}
+    full1 = rr4_feasible_set(rep, 1, c1)
+    if relabel_closure(rr4_feasible_set(rep, 1, c1, fixed=True)) != full1 or not full1:
+        raise core.MachineryError("team-renaming closure of the first-day-fixed feasible set is not the feasible set")
+    if True:
+        if tier == "thorough":
+            F = sorted(rr4_feasible_set(rep, 2, cset))
+        else:
+            F = sorted(relabel_closure(rr4_feasible_set(rep, 2, cset, fixed=True)))
+            rep.notes.append("quick: feasible set of the double round robin = renaming closure of TLC's feasible "
+                             "plans with the first day fixed (271 465 states); thorough enumerates all 3.26M")
         for inst in insts:
             lo = LenObj(inst)
             lb, ub = inst.get_optimal_plan_length_bounds()
@@ -86,9 +97,6 @@ def run(prop: str, tier: str, seed: int) -> int:
         rep.family("optimum-over-complete-feasible-set", len(F) * len(insts), len(F))
         rep.nontrivial += len(F)
         rep.exhaustive = True
-    else:
-        rep.notes.append("optimum clause (complete feasible set of the 4-team double round robin, 3.26M TLC "
-                         "states) runs in the thorough tier only")
     # ---- (B)
     n_b = {"quick": 300, "thorough": 2500}[tier]
     for k in range(n_b):
